@@ -484,7 +484,7 @@ class World:
         self.color = {n: [0, 0, 0, 0] for n in self.names}
 
 
-BUILTINS = ('round', 'trunc', 'floor', 'ceil', 'cycle')
+BUILTINS = ('round', 'trunc', 'floor', 'ceil', 'cycle', 'sqrt', 'sin', 'cos', 'tan', 'asin', 'acos', 'atan')
 
 
 class Interp:
@@ -612,6 +612,15 @@ class Interp:
         if name == 'floor': return math.floor(x)
         if name == 'ceil': return math.ceil(x)
         if name == 'cycle': return fmod(x, 360)
+        # docs/language.rst: sqrt of a negative number is 0 (and an error in the log); sin/cos/tan take
+        # degrees, asin/acos/atan deliver degrees
+        from . import ufmath
+        if name == 'sqrt':
+            return 0 if x < 0 else ufmath.apply('sqrt', x)
+        if name in ('sin', 'cos', 'tan'):
+            return ufmath.apply(name, ufmath.apply('radians', x))
+        if name in ('asin', 'acos', 'atan'):
+            return ufmath.apply('degrees', ufmath.apply(name, x))
         raise ValueError(name)
 
     # ---- statements ------------------------------------------------------
